@@ -12,6 +12,15 @@ NAMES = {"frequency.bin.tmp": "TmpFreq", "frequency.bin": "FinFreq", "user.dic.t
 FILES = {v: k for k, v in NAMES.items()}
 
 
+def name_of(basename):
+    """model name of a file of the user directory; a file the crash model does not know keeps its own name (X:<basename>)"""
+    return NAMES.get(basename, "X:" + basename)
+
+
+def file_of(name):
+    return FILES.get(name, name[2:] if name.startswith("X:") else name)
+
+
 def extracted_save():
     import gen_protocol, importlib
     importlib.reload(gen_protocol)
@@ -42,8 +51,8 @@ def parse_strace(path, udir):
             sc, args, ret = m.group(1), m.group(2), int(m.group(3))
         if sc in ("openat", "open", "creat") and ret >= 0:
             pm = re.search(r'"([^"]+)"', args)
-            if pm and os.path.dirname(pm.group(1)) == udir and os.path.basename(pm.group(1)) in NAMES:
-                name = NAMES[os.path.basename(pm.group(1))]
+            if pm and os.path.dirname(pm.group(1)) == udir:
+                name = name_of(os.path.basename(pm.group(1)))
                 if "O_TRUNC" in args or "O_CREAT" in args or sc == "creat":
                     ops.append(("FCreate", name))
                     fd[ret] = name
@@ -63,24 +72,48 @@ def parse_strace(path, udir):
             fd.pop(f, None)
         elif sc in ("unlink", "unlinkat") and ret == 0:
             pm = re.search(r'"([^"]+)"', args)
-            if pm and os.path.dirname(pm.group(1)) == udir and os.path.basename(pm.group(1)) in NAMES:
-                ops.append(("FRemove", NAMES[os.path.basename(pm.group(1))]))
+            if pm and os.path.dirname(pm.group(1)) == udir:
+                ops.append(("FRemove", name_of(os.path.basename(pm.group(1)))))
         elif sc in ("rename", "renameat", "renameat2") and ret == 0:
             ps = re.findall(r'"([^"]+)"', args)
-            if len(ps) == 2 and os.path.dirname(ps[0]) == udir and os.path.basename(ps[0]) in NAMES and os.path.basename(ps[1]) in NAMES:
-                ops.append(("FRename", NAMES[os.path.basename(ps[0])], NAMES[os.path.basename(ps[1])]))
+            if len(ps) == 2 and (os.path.dirname(ps[0]) == udir or os.path.dirname(ps[1]) == udir):
+                ops.append(("FRename", name_of(os.path.basename(ps[0])), name_of(os.path.basename(ps[1]))))
     return ops
 
 
 def crash_states(old, new, prog, max_per_write):
-    """python mirror of coq/Server/CrashModel.v: every state a death can leave; old/new: name -> bytes or None"""
-    def data(f):
-        return new["FinFreq"] if f in ("TmpFreq", "FinFreq") else new["FinDic"]
+    """python mirror of coq/Server/CrashModel.v, for whatever files the traced save touches: every state a death can leave.
+    old / new: name -> bytes or None (the directory before the save / after it).  What a write puts into a file is the content that
+    file object has at the end of the save (followed through the renames); for an object that does not survive, zero bytes of the
+    traced length."""
+    # pass 1: which object sits where at the end
+    objs, nxt, where = {}, [0], {}
+    for n_, c in old.items():
+        if c is not None:
+            objs[n_] = ("old", n_)
+    sim = dict(objs)
+    created = {}
+    for i, o in enumerate(prog):
+        if o[0] == "FCreate":
+            nxt[0] += 1
+            sim[o[1]] = ("new", nxt[0])
+            created[i] = sim[o[1]]
+        elif o[0] == "FRename":
+            if o[1] in sim:
+                sim[o[2]] = sim.pop(o[1])
+        elif o[0] == "FRemove":
+            sim.pop(o[1], None)
+    final_content = {obj: new.get(n_) for n_, obj in sim.items()}
+    # pass 2: the states
     s = dict(old)
+    cur = {n_: ("old", n_) for n_, c in old.items() if c is not None}
     states = [("before any operation", dict(s))]
     for i, o in enumerate(prog):
         if o[0] == "FWrite":
-            d = data(o[1]) or b""
+            obj = cur.get(o[1])
+            d = final_content.get(obj)
+            if d is None:
+                d = b"\0" * (o[2] if len(o) > 2 else 0)
             ks = sorted(set([0, 1, len(d) // 3, len(d) // 2, len(d) - 1, len(d)] + list(range(0, len(d) + 1, max(1, len(d) // max_per_write)))))
             for k in ks:
                 if 0 <= k <= len(d):
@@ -90,11 +123,15 @@ def crash_states(old, new, prog, max_per_write):
             s[o[1]] = d
         elif o[0] == "FCreate":
             s[o[1]] = b""
+            cur[o[1]] = created[i]
         elif o[0] == "FRename":
             s[o[2]] = s.get(o[1])
             s[o[1]] = None
+            if o[1] in cur:
+                cur[o[2]] = cur.pop(o[1])
         elif o[0] == "FRemove":
             s[o[1]] = None
+            cur.pop(o[1], None)
         states.append((f"after op {i} ({' '.join(map(str, o[:3]))})", dict(s)))
     return states
 
@@ -103,15 +140,17 @@ def materialize(d, state):
     os.makedirs(d, exist_ok=True)
     for name, content in state.items():
         if content is not None:
-            with open(os.path.join(d, FILES[name]), "wb") as f:
+            with open(os.path.join(d, file_of(name)), "wb") as f:
                 f.write(content)
 
 
 def snapshot(udir):
-    out = {}
-    for fn, name in NAMES.items():
-        p = os.path.join(udir, fn)
-        out[name] = open(p, "rb").read() if os.path.exists(p) else None
+    out = {name: None for name in FILES}
+    if os.path.isdir(udir):
+        for fn in os.listdir(udir):
+            p = os.path.join(udir, fn)
+            if os.path.isfile(p):
+                out[name_of(fn)] = open(p, "rb").read()
     return out
 
 
@@ -200,7 +239,7 @@ def run(tier, seed):
                 res.violation("after two periodic saves frequency.bin / user.dic do not both exist", {"files": {k: (v is not None) for k, v in new.items()}})
                 continue
             # every crash state of THAT save, from the old files to the new contents
-            states = crash_states(old, {"FinFreq": new["FinFreq"], "FinDic": new["FinDic"]}, prog, per_write)
+            states = crash_states(old, new, prog, per_write)
             n_states += len(states)
             n_partial += sum(1 for w, _ in states if w.startswith("inside"))
             ok_freq = [sorted(map(json.dumps, old_dump["frequencies"])), sorted(map(json.dumps, new_dump["frequencies"]))]
@@ -221,7 +260,7 @@ def run(tier, seed):
                         return (what, f"the restored learned counts {dd['frequencies']} are neither the previously saved nor the newly saved version", None)
                     if dd["user_entries"] not in ok_user:
                         return (what, f"the restored user dictionary {dd['user_entries']} is neither the previously saved nor the newly saved version", None)
-                    leftover = any(st_.get(k) is not None for k in ("TmpFreq", "TmpDic"))
+                    leftover = any(v is not None for k, v in st_.items() if k not in ("FinFreq", "FinDic"))
                     if idx % 4 == 0 or leftover:        # periodic saving keeps working afterwards: a word registered now reaches user.dic
                         s2.call("RegisterWord", {"kind": "CommonNoun", "reading": "あいう", "word": "亜crash"}, timeout=10)
                         s2.quiesce()
